@@ -1121,6 +1121,15 @@ func c05Buckets(r *Report, rule string) {
 					bad = "labels 7 and 11 are routed to different decoders"
 				}
 				csDec = callee
+			} else if rule != "R07.5" && !isGenericValueDecoder(P, callee) {
+				// every other value must reach the validator as the CBOR type it
+				// has on the wire: decoded into an empty interface, not into a
+				// typed destination that also accepts other encodings
+				what := "the default arm"
+				if isLabel {
+					what = fmt.Sprintf("label %d", lbl)
+				}
+				bad = what + " is routed to " + shortFn(callee) + ", which does not decode the value into an empty interface (a typed destination accepts encodings the parameter rules exclude)"
 			}
 		}
 		o := r.ob(rule, shortFn(perEntry)+":routing", perEntry, nil, "labels 7 and 11 (normalised) are routed to the countersignature value decoder")
@@ -1144,6 +1153,30 @@ func c05Buckets(r *Report, rule string) {
 		}
 	}
 	c05LabelScanOnly(r, rule)
+}
+
+// isGenericValueDecoder: every non-failure exit of f returns the value a
+// package mode decoded from f's parameter into an empty interface.
+func isGenericValueDecoder(P *Prog, f *ssa.Function) bool {
+	n := 0
+	for _, x := range P.factsOf(f).exits {
+		if x.kind == exitFailure || len(x.results) == 0 {
+			continue
+		}
+		n++
+		ok := false
+		for _, it := range []string{"*interface{}", "*any"} {
+			if _, m := unify(mustPat("mod(call<invoke:cbor.DecMode.Unmarshal>(%M, $0, iface<"+it+">(%A)), %A)"), x.results[0], bindings{}); m {
+				if len(exitFacts(P, x).matchAll([]factPat{fp(okp("call<invoke:cbor.DecMode.Unmarshal>(%M, $0, iface<" + it + ">(%A))"))}, nil)) > 0 {
+					ok = true
+				}
+			}
+		}
+		if !ok {
+			return false
+		}
+	}
+	return n > 0
 }
 
 // checkCountersigValueRefusal: the decoder of a countersignature header value
